@@ -8,14 +8,17 @@ Local Open Scope N_scope.
 Lemma all_formats_wf : forallb wf_alloc all_formats = true.
 Proof. vm_compute. reflexivity. Qed.
 
+Lemma all_formats_count : length all_formats = 102%nat.
+Proof. vm_compute. reflexivity. Qed.
+
 Lemma all_formats_bounds :
-  forallb (fun f => (kf f <=? 30750) && (cf f <=? 16777276)) all_formats = true.
+  forallb (fun f => (kf f <=? 1872) && (cf f <=? 16777276)) all_formats = true.
 Proof. vm_compute. reflexivity. Qed.
 
 Lemma registry_safe : forall id, In id format_ids -> forall c bs,
   fst (decode (fmt_of id) c bs) <> Panic /\
   snd (decode (fmt_of id) c bs) <= kf (fmt_of id) * len bs + cf (fmt_of id) /\
-  snd (decode (fmt_of id) c bs) <= 30750 * len bs + 16777276.
+  snd (decode (fmt_of id) c bs) <= 1872 * len bs + 16777276.
 Proof.
   intros id I c bs.
   assert (IF : In (fmt_of id) all_formats) by (unfold all_formats; apply in_map; exact I).
@@ -26,7 +29,7 @@ Proof.
 Qed.
 
 (* the transaction decoder in particular *)
-Lemma tx_bounds : kf tx_fmt = 1932 /\ cf tx_fmt = 16777263 /\ wf_alloc tx_fmt = true.
+Lemma tx_bounds : kf tx_fmt = 517 /\ cf tx_fmt = 16777263 /\ wf_alloc tx_fmt = true.
 Proof. vm_compute. auto. Qed.
 
 (* ---- the defect class: a count-sized make without a bound *)
